@@ -365,7 +365,17 @@ impl World {
             .iter()
             .fold(ComponentAccess::new_true(), |acc, a| acc.and(a));
 
-        let conflicts = component_access_conjunction.collect_conflicts();
+        // Every pair of params may see the same entity, whether or not the remaining
+        // params match it.
+        let mut conflicts = component_access_conjunction.collect_conflicts();
+
+        for (i, a) in config.component_accesses.iter().enumerate() {
+            conflicts.extend(a.collect_conflicts());
+
+            for b in &config.component_accesses[i + 1..] {
+                conflicts.extend(a.and(b).collect_conflicts());
+            }
+        }
 
         if !conflicts.is_empty() {
             let mut errmsg = format!(
